@@ -237,3 +237,37 @@ func queryOnlyCommittedHeights(r *Run, rule string) {
 func init() {
 	extend("C14", func(r *Run) { queryOnlyCommittedHeights(r, "C14-R16") })
 }
+
+// aminoNumbersCanonical: a signed transaction has one byte encoding as far as its numbers go (C03 replay, C20). Found
+// by a seeding sub-agent's remark, reproduced (repro/C03_respelled_integer_replay_test.go.txt), repaired by eec7181.
+func aminoNumbersCanonical(r *Run, rule string) {
+	P := r.P
+	r.Rule(rule, "numbers on the wire have one spelling: the amino text decoders of Int / Uint (types.unmarshalAmino) and Dec (Dec.UnmarshalAmino) succeed only if the text equals the canonical String() of the decoded number, and Int/Uint.UnmarshalAmino go through unmarshalAmino — a re-spelled copy (\"+10\", \"010\", \"0xa\") of a signed transaction would have other bytes, another hash for the tx-index replay check, and the same valid signature", 4)
+	for _, w := range []struct{ fn, re string }{
+		{"types.unmarshalAmino", `^\(\(\*math/big\.Int\)\.String\(param:i\) == param:text\)$`},
+		{"(*types.Dec).UnmarshalAmino", `^\(\(\*math/big\.Int\)\.String\(addr:\w+\) == param:text\)$`},
+	} {
+		f := r.fn(w.fn)
+		if f == nil {
+			continue
+		}
+		n := 0
+		for i, ret := range P.successReturns(f, 0, "nil") {
+			n++
+			r.requireCut(rule, fmt.Sprintf("%s/success#%d", w.fn, i), nil, ret, "text-is-canonical", w.re)
+		}
+		if n == 0 {
+			r.Viol(rule, w.fn+"/success", P.Pos(f.Pos()), w.fn+" has no success return")
+		}
+	}
+	for _, n := range []string{"(*types.Int).UnmarshalAmino", "(*types.Uint).UnmarshalAmino"} {
+		if f := r.fn(n); f != nil {
+			r.Check(len(CallsIn(f, "types.unmarshalAmino")) == 1, rule, n+"/through-unmarshalAmino", P.Pos(f.Pos()), "delegates", n+" no longer decodes through types.unmarshalAmino (the canonical-spelling check)")
+		}
+	}
+}
+
+func init() {
+	extend("C03", func(r *Run) { aminoNumbersCanonical(r, "C03-R12") })
+	extend("C20", func(r *Run) { aminoNumbersCanonical(r, "C20-R12") })
+}
